@@ -169,6 +169,11 @@ public:
                     if (pn == nullptr) {
                         //ti->store_root_ptr(nullptr);
                         // remain empty deleted root node.
+                        // It is the only node of this layer now: a sibling
+                        // emptied concurrently may have been unlinked and
+                        // retired without updating this (deleted) node.
+                        set_next(nullptr);
+                        set_prev(nullptr);
                         ti->root_unlock();
                         version_unlock();
                         return;
